@@ -214,3 +214,7 @@ func verifStepBegin() {}
 // verifAdvanceClock: time passes between two harness steps. Engine: the
 // symbolic clock jumps by d; natively the harness really waits (keep d small).
 func verifAdvanceClock(d time.Duration) { time.Sleep(d) }
+
+// verifLetOthersRun: the caller waits until no other goroutine can run any more
+// (engine); natively a short sleep.
+func verifLetOthersRun() { time.Sleep(30 * time.Millisecond) }
